@@ -144,8 +144,11 @@ func (c *Cluster) nonBabblingStep(s *Step) {
 		c.exec(&Step{Op: "restart", A: n.idx})
 		c.stats.probe("c17-leave-then-restart")
 		return
+	case "maintenance":
+		c.maintenanceStep(c.nodeAt(s.A))
+		return
 	case "shutdown":
-		if n := c.nodeAt(s.A); n != nil && n.running() && n.state() == _state.Suspended {
+		if n := c.nodeAt(s.A); n != nil && n.running() && n.state() == _state.Suspended && !n.maintenance {
 			n.node.Shutdown()
 			c.stats.probe("c17-shutdown")
 		}
@@ -200,7 +203,12 @@ func (c *Cluster) nonBabblingStep(s *Step) {
 		}
 		resp := &net.SyncResponse{}
 		err = c.net.deliver(t, "sync", &net.SyncRequest{FromID: fromID, Known: known, SyncLimit: limit}, resp)
-		if st == _state.Suspended && readable {
+		if st == _state.Suspended && readable && t.maintenance {
+			// the statement demands served syncs of nodes suspended at run time only
+			if err == nil {
+				c.stats.probe("c17-maintenance-node-answered-sync")
+			}
+		} else if st == _state.Suspended && readable {
 			if err != nil && t.ffDone && strings.Contains(err.Error(), "Too Late") {
 				// the requester lacks events from below the frame the node was reset to:
 				// a reset node cannot serve those, suspended or not - the other face of
@@ -272,6 +280,103 @@ func (c *Cluster) nonBabblingStep(s *Step) {
 		c.violate("C17", "non-babbling-untouched", "non-babbling-node-delivered-block", "node %d in state %s delivered a block while processing a %s", t.idx, st, kind)
 	}
 	_ = strings.ToUpper
+}
+
+// maintenanceStep opens or closes a maintenance-mode session of a persistent
+// node: clean shutdown, restart with conf.MaintenanceMode (bootstrap from the
+// database, store in maintenance mode, state Suspended, no transport); the
+// request matrix of this profile then reaches it like any other node that is
+// not babbling. Closing the session restarts it normally: what it knows and
+// what it re-delivers must be what it knew and delivered before the session.
+func (c *Cluster) maintenanceStep(n *SimNode) {
+	if n == nil || !n.running() || n.storeKind != "badger" || n.ffDone || n.isObserver || n.leaving {
+		return
+	}
+	if n.task != nil && !n.task.done {
+		return
+	}
+	if !n.maintenance {
+		if n.state() != _state.Babbling && n.state() != _state.Suspended {
+			return
+		}
+		// keep at least two nodes babbling
+		if n.state() == _state.Babbling && len(c.liveBabbling()) < 3 {
+			return
+		}
+	}
+	c.drainTasksOf(n)
+	if !n.running() {
+		return
+	}
+	opening := !n.maintenance
+	known := n.core().KnownEvents()
+	var blocksBefore []string
+	if !opening {
+		blocksBefore = c.storedBlockDigests(n)
+	}
+	n.knownAtCrash = known
+	n.lostTxs = append(n.lostTxs, n.pendingPoolSnapshot()...)
+	n.node.Shutdown()
+	delete(c.byPath, n.dbPath)
+	n.crashed = true
+	n.node = nil
+	n.maintNext = opening
+	n.maintenance = false
+	c.restartFromDisk(n)
+	n.maintNext = false
+	if !n.running() {
+		return
+	}
+	if opening {
+		n.maintenance = true
+		c.stats.probe("c17-maintenance-session-opened")
+		if st := n.state(); st != _state.Suspended {
+			c.violate("C17", "refusal", "maintenance-node-not-suspended", "node %d started in maintenance mode is in state %s", n.idx, st)
+		}
+		return
+	}
+	c.stats.probe("c17-maintenance-session-closed")
+	// nothing that happened during the session may have reached the database
+	after := n.core().KnownEvents()
+	for id, k := range after {
+		if b, ok := known[id]; !ok || b != k {
+			c.violate("C17", "non-babbling-untouched", "maintenance-session-changed-database", "node %d: after a maintenance-mode session the database knows creator %d up to %d, before the session %d", n.idx, id, k, known[id])
+			return
+		}
+	}
+	for id, k := range known {
+		if a, ok := after[id]; !ok || a != k {
+			c.violate("C17", "non-babbling-untouched", "maintenance-session-changed-database", "node %d: after a maintenance-mode session the database knows creator %d up to %d, before the session %d", n.idx, id, after[id], k)
+			return
+		}
+	}
+	blocksAfter := c.storedBlockDigests(n)
+	if len(blocksAfter) != len(blocksBefore) {
+		c.violate("C17", "non-babbling-untouched", "maintenance-session-changed-database", "node %d: %d blocks after a maintenance-mode session, %d during it", n.idx, len(blocksAfter), len(blocksBefore))
+		return
+	}
+	for i := range blocksAfter {
+		if blocksAfter[i] != blocksBefore[i] {
+			c.violate("C17", "non-babbling-untouched", "maintenance-session-changed-database", "node %d: block %d differs after a maintenance-mode session", n.idx, i)
+			return
+		}
+	}
+}
+
+// storedBlockDigests: body hashes of all blocks the node's store holds.
+func (c *Cluster) storedBlockDigests(n *SimNode) []string {
+	res := []string{}
+	store := n.core().Hashgraph().Store
+	for i := 0; i <= store.LastBlockIndex(); i++ {
+		b, err := store.GetBlock(i)
+		if err != nil {
+			res = append(res, "missing")
+			continue
+		}
+		h, _ := b.Body.Hash()
+		res = append(res, fmt.Sprintf("%x|%x", h, b.StateHash()))
+	}
+	return res
 }
 
 // checkSyncResponse: a run-time-suspended node answers with exactly events the
@@ -402,6 +507,16 @@ func init() {
 				cfg.JoinTimeoutMs = []int{20, 200, 2000}[r.Intn(3)]
 				cfg.FastSyncLate = false
 			}
+			if r.Bool(0.25) {
+				// persistent nodes taken into maintenance mode and back
+				cfg.Maintenance = true
+				for i := range cfg.Stores {
+					if r.Bool(0.6) {
+						cfg.Stores[i] = "badger"
+					}
+				}
+				cfg.FastSyncLate = false
+			}
 			if r.Bool(0.5) {
 				// quorum-less runs growing the undetermined set
 				cfg.SuspendLimit = []int{2, 5, 10, 20}[r.Intn(4)]
@@ -429,6 +544,15 @@ func init() {
 					for _, n := range c.nodes {
 						if n.running() && n.state() == _state.Suspended && c.gen.Bool(0.3) {
 							return &Step{Op: "byz", Kind: "shutdown", A: n.idx}
+						}
+					}
+				case x == 3 && c.cfg.Maintenance:
+					for _, n := range c.nodes {
+						if n.running() && n.storeKind == "badger" && !n.ffDone && (n.maintenance || c.gen.Bool(0.4)) {
+							if n.maintenance && c.gen.Bool(0.7) {
+								break // let the session last a few steps
+							}
+							return &Step{Op: "byz", Kind: "maintenance", A: n.idx}
 						}
 					}
 				case x == 2 && c.cfg.PLeave > 0:
